@@ -1,5 +1,33 @@
 """C06 -- garbage collection is precise and complete (sequential/gated part; contended deletes are in C03/C04 drivers)."""
+import json, os
+import vlib
 from checks import mvcc
+from vlib import Infra, log
+
+
+def backlog(ctx, nsnap, writers, seed_off=0):
+    """Scale: a pinned old snapshot while hundreds of newer snapshots (each with a little garbage) are created and closed,
+    then the old one is closed: one collection pass must hand over the whole backlog (more lists than the workers'
+    queue holds) and everything must be collected."""
+    import random
+    rng = random.Random(vlib.seed() + seed_off)
+    ops = [["Put", 1, k, 1] for k in range(1, 9)] + [["NewSnapshot"]]
+    for i in range(nsnap):
+        k = 1 + i % 8
+        w = 1 + rng.randrange(writers)
+        ops += [["Delete", w, k], ["Put", w, k, 1 + i % 3], ["NewSnapshot"], ["CloseSnap", i + 2]]
+    ops += [["CloseSnap", 1], ["GC"]]
+    scripts = [{"cfg": {"kv": kv, "mm": True, "writers": writers, "hold": False}, "noscan": True, "ops": ops} for kv in (True, False)]
+    tr, info = mvcc.run_scripts(ctx, scripts, "backlog")
+    if info.get("failed"):
+        raise Infra("backlog scenario: harness reported %s" % info["failed"][:2])
+    cfg = open(os.path.join(vlib.SPEC, "Trace_NitroMVCC.cfg")).read().replace("MaxSn = 64", "MaxSn = %d" % (nsnap + 8))
+    open(os.path.join(ctx.wd, "Trace_NitroMVCC_big.cfg"), "w").write(cfg)
+    vlib.stage_specs(ctx.wd, [])
+    ok = vlib.judge_trace(ctx, "Trace_NitroMVCC.tla", "Trace_NitroMVCC_big.cfg", tr,
+                          "backlog of %d closed snapshots behind a pinned one (%d writers)" % (nsnap, writers), len(scripts), mvcc.reset, timeout=2400)
+    os.remove(tr)
+    return ok
 
 
 def run(ctx):
@@ -9,7 +37,8 @@ def run(ctx):
                 "released list is pending, no version with deadSn <= lastGCSn is linked) over all close orders with 2 collection workers; "
                 "M3: graph transitions replayed on the real store; M2: random histories with several writers, snapshots closed in random order, "
                 "held GC lists; after every event the physical level-0 chain (key,value,bornSn,deadSn,mark), node count, soft deletes, "
-                "MemoryInUse, GetLastGCSn and GetSnapshots are recorded and judged by TLC")
+                "MemoryInUse, GetLastGCSn and GetSnapshots are recorded and judged by TLC; scale: 300 (thorough 600) snapshots created and closed "
+                "behind a pinned one, then released in one collection pass")
     gcinv = [i for i in mvcc.MC_INVS["gc"] if i != "C10_VisitPartition"]
     m1 = [("c06_2w", mvcc.mc_cfg([1, 2], [1], ["w1", "w2"], 3, 1, [], [], 0, gcinv))]
     if T:
@@ -19,4 +48,9 @@ def run(ctx):
     if T:
         g.append(("c06_graph_1k4sn", mvcc.mc_cfg([1], [1], ["w1", "w2"], 4, 1, [], [], 0, gcinv), 2))
     randoms = [("C06 histories with held garbage lists and random close order", 3000 if T else 300, 150 if T else 120, "gc", 6)]
-    return mvcc.run_family(ctx, m1, g, 400, randoms)
+    mvcc.run_family(ctx, m1, g, 400, randoms)
+    if not ctx.violations or T:
+        backlog(ctx, 300, 1)
+        if T:
+            backlog(ctx, 600, 2, 1)
+    return ctx.finish()
